@@ -116,9 +116,45 @@ def norm_positions(r, n):
     return [int(x) for x in r]
 
 
-def run_select(rows, key, via, layout_rng=None):
+def auto_rows(rng):
+    '''depth 2, every leaf index is the auto-integer labelling 0..k-1 of its parent (ragged: k differs between parents)'''
+    outers = rng.sample(ALPH[0], rng.randint(2, 3))
+    return [[o, ['i', k]] for o in outers for k in range(rng.choice([1, 2, 3, 6]))]
+
+
+def build_auto(rows, route):
+    '''the leaves are map-less (loc_is_iloc) Index objects, as Frame.from_concat_items / from_index_items produce them'''
+    outers, sizes = [], {}
+    for r in rows:
+        o = P.dec(r[0])
+        if o not in outers:
+            outers.append(o)
+        sizes[o] = sizes.get(o, 0) + 1
+    if route == 'auto_index_items':
+        return sf.IndexHierarchy.from_index_items((o, sf.Index(range(sizes[o]), loc_is_iloc=True)) for o in outers)
+    return sf.Frame.from_concat_items((o, sf.Frame(np.zeros((sizes[o], 1)), columns=('p',))) for o in outers).index
+
+
+def auto_key(rng, rows):
+    present = []
+    for r in rows:
+        if r[0] not in present:
+            present.append(r[0])
+    q = rng.random()
+    outer = ['all'] if q < 0.4 else (['loc', rng.choice(present)] if q < 0.8 else ['loclist', rng.sample(present, rng.randint(1, len(present)))])
+    q = rng.random()
+    if q < 0.15:
+        inner = ['all']
+    elif q < 0.55:
+        inner = ['loc', ['i', rng.randint(0, 6)]]
+    else:
+        inner = ['loclist', [['i', x] for x in rng.sample(range(0, 7), rng.randint(1, 3))]]
+    return [outer, inner]
+
+
+def run_select(rows, key, via, layout_rng=None, build=None):
     labels = [tup(r) for r in rows]
-    ih = sf.IndexHierarchy.from_labels(labels)
+    ih = sf.IndexHierarchy.from_labels(labels) if build is None else build()
     n = len(rows)
     try:
         if key[0] == 'mask':
@@ -193,6 +229,8 @@ def absent_tuples(rng, rows):
         t = [rng.choice(ALPH[d]) for d in range(depth)]
         if t not in rows:
             out.append(t)
+    if rng.random() < 0.3:
+        out.append(list(rows[0]) + [['s', 'extra']])          # a key with more components than the depth names no label
     return out
 
 
@@ -342,6 +380,26 @@ def main(ctx):
         ctx.exhaustive = not quick
     events = []
     for i in range(1600 if quick else 15000):
+        if ctx.rng.random() < 0.08:
+            # hierarchies whose leaves are auto-integer (map-less) indices: a label beyond a leaf's length is absent THERE
+            rows = auto_rows(ctx.rng)
+            route = ctx.rng.choice(['auto_index_items', 'auto_concat_items'])
+            if ctx.rng.random() < 0.4:
+                absent = [[r[0], ['i', k]] for r in rows[:1] for k in (6, 7)] + [[['s', 'ZZ'], ['i', 0]], rows[0] + [['s', 'extra']]]
+                absent = [a for a in absent if a not in rows]
+                try:
+                    obs = observe(build_auto(rows, route), rows, absent)
+                except Exception as e:
+                    obs = {'k': 'err', 'cat': P.err_category(e), 'msg': str(e)[:100]}
+                events.append({'id': len(events), 'kind': 'views', 'rows': rows, 'absent': absent, 'obs': obs, 'route': route})
+                ctx.count('V_views_auto_leaves')
+            else:
+                key = auto_key(ctx.rng, rows)
+                via = ctx.rng.choice(['loc_to_iloc', 'ih_loc', 'series', 'frame'])
+                events.append({'id': len(events), 'kind': 'select', 'rows': rows, 'key': key, 'ismask': False, 'via': via,
+                               'res': run_select(rows, key, via, build=lambda: build_auto(rows, route))})
+                ctx.count('V_select_auto_leaves')
+            continue
         depth = ctx.rng.choice([2, 2, 3, 4])
         rows = rand_rows(ctx.rng, depth, ctx.rng.randint(1, 9))
         q = ctx.rng.random()
